@@ -218,6 +218,14 @@ def collapse_items(items: ExpandedItems, is_linetable: bool) -> CollapsedItems:
                 or prev_item.line_offset <= (-127 if is_linetable else -128)
             )
             and item.line_offset != 0
+            # A line offset is split into pieces with the same sign. In the lnotab,
+            # a piece of the opposite sign is a seperate entry which was left with no
+            # bytecode, when the instructions between them were optimized away.
+            and (
+                is_linetable
+                or item.line_offset is None
+                or (item.line_offset > 0) == (prev_item.line_offset > 0)
+            )
         )
         # Bytecode offset too large, so split between two
         if bytecode_offset_split or line_offset_split:
